@@ -1025,6 +1025,26 @@ pub fn c08(thorough: bool, rng: &mut Rng, out: &mut Out) {
                 let at = format!("{:04X},{}", a, ti);
                 let first = if use_cfn { "cfn" } else { "cfg" };
                 line.push_str(&format!(" {},{},- snd,{},{} shw,{},- nxt,{},- shw,{},- snd,{},{} off,{},-", first, at, at, pages1, at, at, at, at, pages2, at));
+                // the same controller object kept across traffic it did not cause: after its own successful operations
+                // somebody else says goodbye to the sign, resets it, or starts configuring it — what the controller
+                // does next (configure-if-needed, send) must go by what the sign reports, not by what it remembers
+                if rep == 0 {
+                    let foreign: Vec<Vec<String>> = vec![
+                        vec![format!("raw,GB,{:04X}", a)],
+                        vec![format!("raw,RO,{:04X},4", a), format!("raw,RO,{:04X},5", a)],
+                        vec![format!("raw,RO,{:04X},4", a)],
+                        vec![format!("raw,RO,{:04X},0", a)],
+                        vec![format!("raw,RO,{:04X},1", a)],
+                        vec![format!("raw,HE,{:04X}", a)],
+                    ];
+                    for fr in foreign {
+                        let mut l2 = format!("e2e direct {} | cfg,{},- snd,{},{} {} cfn,{},- snd,{},{} shw,{},- {} cfn,{},- cfg,{},- off,{},-",
+                            signs, at, at, pages1, fr.join(" "), at, at, pages2, at, fr.join(" "), at, at, at);
+                        if pages1 == "-" { l2 = l2.replace(" shw,", " nxt,"); }
+                        let _ = out.case(l2, true);
+                        out.stat("e2e.foreign-traffic-between-operations");
+                    }
+                }
                 let i = out.case(line, true);
                 out.stat(&format!("e2e.prior-len.{}", prior.len().min(9)));
                 // direct oracle on the implementation's output
